@@ -95,6 +95,38 @@ def lindblad_family(rnd):
             print(f"REPRODUCED: Lindblad run n={n} dt={dt} phases={[round(x, 6) for x in ph.tolist()]}: after 5 steps "
                   f"|rho - rho^dagger| = {herm:.3g}, |tr rho - 1| = {tr:.3g}, smallest eigenvalue {ev:.3g}")
             return 1
+    # consecutive steps that share the amplitude, detuning, interaction-matrix and noise-operator OBJECTS and differ in one
+    # drive only (back-to-back pulses with another phase / detuning / amplitude): anything kept from the previous step
+    # must not stand in for the new generator
+    n, d = 2, 4
+    U2 = torch.tensor([[0.0, 1.7], [1.7, 0.0]], dtype=torch.float64)
+    Lk = [torch.tensor([[0.0, 0.6], [0.0, 0.0]], dtype=torch.complex128),
+          torch.tensor([[0.5, 0.0], [0.0, -0.5]], dtype=torch.complex128)]
+    om0 = torch.tensor([3.0, 3.0], dtype=torch.complex128)
+    de0 = torch.tensor([0.5, 0.5], dtype=torch.complex128)
+    ph0 = torch.tensor([0.0, 0.0], dtype=torch.complex128)
+    variants = {"phase": (om0, de0, torch.tensor([1.3, 1.3], dtype=torch.complex128)),
+                "detuning": (om0, torch.tensor([-2.0, -2.0], dtype=torch.complex128), ph0),
+                "amplitude": (torch.tensor([1.0, 1.0], dtype=torch.complex128), de0, ph0)}
+    for what, (om1, de1, ph1) in variants.items():
+        rho = torch.zeros(d, d, dtype=torch.complex128)
+        rho[0, 0] = 1.0
+        ref = rho.clone()
+        for k, (o_, d_, p_) in enumerate([(om0, de0, ph0), (om1, de1, ph1), (om0, de0, ph0)]):
+            rho, _ = EvolveDensityMatrix.apply(0.3, o_, d_, p_, U2, rho, 1e-10, Lk)
+            H = dense_h(o_.real, d_.real, p_.real, U2)
+            Id = torch.eye(d, dtype=torch.complex128)
+            G = -1j * (torch.kron(H, Id) - torch.kron(Id, H.T.contiguous()))
+            for L in Lk:
+                for q in range(n):
+                    Lq = kron([L if j == q else I2 for j in range(n)])
+                    LdL = Lq.conj().T @ Lq
+                    G = G + torch.kron(Lq, Lq.conj()) - 0.5 * (torch.kron(LdL, Id) + torch.kron(Id, LdL.T.contiguous()))
+            ref = (torch.linalg.matrix_exp(0.3 * G) @ ref.reshape(-1)).reshape(d, d)
+            if (rho - ref).norm().item() > 1e-6:
+                print(f"REPRODUCED: Lindblad steps sharing all parameter objects, step {k + 1} differs from the previous one in "
+                      f"the {what} only: |rho - exp(dt L_k) ... rho_0| = {(rho - ref).norm().item():.3g}")
+                return 1
     # F33 (fixed in d112f14): the generator is the Lindbladian only on Hermitian matrices; an anti-Hermitian rounding
     # residue is amplified by exp(dt * spread(sum L^dagger L)/2) per step unless each step returns a Hermitian matrix.
     # Strong complex noise operators, many steps: the run must follow the product of dense exponentials.
@@ -198,6 +230,13 @@ def main():
         om = torch.rand(n, dtype=torch.float64) * 5
         de = torch.rand(n, dtype=torch.float64) * 4 - 2
         ph = torch.rand(n, dtype=torch.float64) * rnd.choice([0.0, 3.0])
+        if t % 3 == 2:
+            # corner phases (sin or cos vanish): the same on all atoms, or mixed with zero (an SLM-masked atom)
+            import math
+            corner = [math.pi, -math.pi, math.pi / 2, -math.pi / 2, 2 * math.pi, 3 * math.pi][(t // 3) % 6]
+            ph = torch.full((n,), corner, dtype=torch.float64)
+            if t % 2 and n > 1:
+                ph[rnd.randrange(n)] = 0.0
         U = torch.rand(n, n, dtype=torch.float64) * 3
         U = (U + U.T) / 2
         U.fill_diagonal_(0)
@@ -208,7 +247,8 @@ def main():
                                           ph.to(torch.complex128), U, psi.clone(), 1e-10, [])
         ref = torch.linalg.matrix_exp(-1j * dt * dense_h(om, de, ph, U)) @ psi
         if (out - ref).norm() > 1e-6:
-            print(f"REPRODUCED: n={n} dt={dt}: |evolve(psi) - exp(-i dt H) psi| = {(out - ref).norm().item():.3g}")
+            print(f"REPRODUCED: n={n} dt={dt} phases={[round(x, 6) for x in ph.tolist()]}: "
+                  f"|evolve(psi) - exp(-i dt H) psi| = {(out - ref).norm().item():.3g}")
             return 1
     rc = lindblad_family(rnd)
     if rc:
